@@ -300,6 +300,11 @@ type strg string
 
 func (s strg) String() string { return string(s) }
 
+type bothTxt []byte
+
+func (m bothTxt) String() string               { return "for the eyes only: " + string(m) }
+func (m bothTxt) MarshalText() ([]byte, error) { return m, nil }
+
 type txtM []byte
 
 func (m txtM) MarshalText() ([]byte, error) { return m, nil }
@@ -345,6 +350,7 @@ const (
 	sError       = "error"
 	sStringer    = "Stringer"
 	sTxtM        = "TextMarshaler"
+	sBothTxt     = "Stringer+TextMarshaler" // renders differently through String() and MarshalText(): the text codec reads values back with UnmarshalText, so MarshalText is the rendering that round-trips (time.Time, big.Float, net.IP are such types)
 	sBinM        = "BinaryMarshaler"
 	sWriterTo    = "WriterTo"
 	sReader      = "Reader"
@@ -357,7 +363,7 @@ const (
 	sChanless    = "map"
 )
 
-var srcKinds = []string{sWrToCloser, sString, sStringPtr, sNamedStr, sBytes, sBytesPtr, sNamedBytes, sError, sStringer, sTxtM, sBinM, sWriterTo,
+var srcKinds = []string{sWrToCloser, sString, sStringPtr, sNamedStr, sBytes, sBytesPtr, sNamedBytes, sError, sStringer, sTxtM, sBothTxt, sBinM, sWriterTo,
 	sReader, sReadCloser, sNil, sNilStrPtr, sNilBytesPtr, sInt, sIntPtr, sChanless}
 
 // verdict of the documentation for a source kind: "exact" (the sink receives exactly the source bytes),
@@ -366,7 +372,7 @@ func sourceVerdict(codec, k string) string {
 	switch k {
 	case sString, sStringPtr, sNamedStr, sError:
 		return "exact"
-	case sStringer, sTxtM:
+	case sStringer, sTxtM, sBothTxt:
 		if codec == "text" {
 			return "exact"
 		}
@@ -429,6 +435,8 @@ func CheckProduce(c ProduceCase) *kit.Violation {
 		src = strg(data)
 	case sTxtM:
 		src = txtM(data)
+	case sBothTxt:
+		src = bothTxt(data)
 	case sBinM:
 		src = binM(data)
 	case sWriterTo:
